@@ -29,6 +29,8 @@ type c17In struct {
 	Script  []int      `json:"script,omitempty"`
 	EOFD    bool       `json:"eofd,omitempty"`
 	Bufs    []int      `json:"bufs,omitempty"`
+	Chunked bool       `json:"chunked,omitempty"`
+	Other   [][2]int64 `json:"other,omitempty"` // timeout: values for the three OTHER fields of each site (set?, value), flattened 3 per site
 	Field   int        `json:"field,omitempty"`
 	Group   [][2]int64 `json:"group,omitempty"` // (set?, value)
 }
@@ -139,6 +141,11 @@ func c17Run(in0 interface{}) Result {
 		h := compile(cfg.Middleware(), inner)
 		req := &http.Request{Method: "POST", URL: &url.URL{Path: in.Path}, Header: http.Header{},
 			Body: &scriptReader{data: bodyOf(in.BodyLen), script: append([]int(nil), in.Script...), eofd: in.EOFD}}
+		// framing as net/http reports it: declared length, or -1 for chunked/unknown
+		req.ContentLength = int64(in.BodyLen)
+		if in.Chunked {
+			req.ContentLength = -1
+		}
 		h.ServeHTTP(httptest.NewRecorder(), req)
 		var tbl []string
 		for _, pl := range cfg.Limits.MaxRequestBodySizes {
@@ -151,8 +158,32 @@ func c17Run(in0 interface{}) Result {
 			Sig: fmt.Sprintf("read:err%d", code), Nontrivial: nt, Class: fmt.Sprintf("read:err%d:scopes%d", code, len(in.Scopes))}
 	case "timeout", "header":
 		var group []*httpserver.SiteConfig
+		siteNo := -1
 		mk := func(set bool, v int64) *httpserver.SiteConfig {
+			siteNo++
 			c := &httpserver.SiteConfig{TLS: new(caskettls.Config)}
+			if in.Kind == "timeout" && len(in.Other) >= 3*(siteNo+1) {
+				// the other three timeout fields vary independently (must not influence this one)
+				k := 0
+				for f := 0; f < 4; f++ {
+					if f == in.Field {
+						continue
+					}
+					o := in.Other[3*siteNo+k]
+					k++
+					d, s := time.Duration(o[1]), o[0] != 0
+					switch f {
+					case 0:
+						c.Timeouts.ReadTimeout, c.Timeouts.ReadTimeoutSet = d, s
+					case 1:
+						c.Timeouts.ReadHeaderTimeout, c.Timeouts.ReadHeaderTimeoutSet = d, s
+					case 2:
+						c.Timeouts.WriteTimeout, c.Timeouts.WriteTimeoutSet = d, s
+					case 3:
+						c.Timeouts.IdleTimeout, c.Timeouts.IdleTimeoutSet = d, s
+					}
+				}
+			}
 			if in.Kind == "header" {
 				c.Limits.MaxRequestHeaderSize = v
 				return c
@@ -301,6 +332,7 @@ func c17Gen(r *Rand, tier string) []interface{} {
 			}
 		}
 		in.EOFD = r.Bool()
+		in.Chunked = r.Bool()
 		nb := r.Range(1, 8)
 		if r.Chance(70) {
 			nb = in.BodyLen + 3
@@ -337,6 +369,13 @@ func c17Gen(r *Rand, tier string) []interface{} {
 					v = durs[r.Intn(len(durs))]
 				}
 				in.Group = append(in.Group, [2]int64{set, v})
+				for k := 0; k < 3; k++ {
+					if r.Chance(60) {
+						in.Other = append(in.Other, [2]int64{1, durs[r.Intn(len(durs))]})
+					} else {
+						in.Other = append(in.Other, [2]int64{0, 0})
+					}
+				}
 			}
 		}
 		out = append(out, in)
